@@ -92,6 +92,9 @@ type NRec709 = palette::rgb::Rec709<T>;
 type NHsv = Hsv<palette::encoding::Srgb, T>;
 type NHsl = Hsl<palette::encoding::Srgb, T>;
 type NHwb = Hwb<palette::encoding::Srgb, T>;
+type NHsvLin = Hsv<palette::encoding::Linear<palette::encoding::Srgb>, T>;
+type NHslLin = Hsl<palette::encoding::Linear<palette::encoding::Srgb>, T>;
+type NHwbRec709 = Hwb<palette::encoding::Rec709, T>;
 type NHsvAdobe = Hsv<palette::encoding::AdobeRgb, T>;
 type NHslP3 = Hsl<palette::encoding::DisplayP3, T>;
 type NHwbRec2020 = Hwb<palette::encoding::Rec2020, T>;
@@ -124,6 +127,9 @@ rgbnode!(NRec709, "rec709");
 node_hue_first!(NHsv, "hsv", saturation, value, [FREE, mm!(NHsv, min_saturation, max_saturation), mm!(NHsv, min_value, max_value)]);
 node_hue_first!(NHsl, "hsl", saturation, lightness, [FREE, mm!(NHsl, min_saturation, max_saturation), mm!(NHsl, min_lightness, max_lightness)]);
 node_hue_first!(NHwb, "hwb", whiteness, blackness, [FREE, mm!(NHwb, min_whiteness, max_whiteness), mm!(NHwb, min_blackness, max_blackness)]);
+node_hue_first!(NHsvLin, "hsv_linsrgb", saturation, value, [FREE, mm!(NHsvLin, min_saturation, max_saturation), mm!(NHsvLin, min_value, max_value)]);
+node_hue_first!(NHslLin, "hsl_linsrgb", saturation, lightness, [FREE, mm!(NHslLin, min_saturation, max_saturation), mm!(NHslLin, min_lightness, max_lightness)]);
+node_hue_first!(NHwbRec709, "hwb_rec709", whiteness, blackness, [FREE, mm!(NHwbRec709, min_whiteness, max_whiteness), mm!(NHwbRec709, min_blackness, max_blackness)]);
 node_hue_first!(NHsvAdobe, "hsv_adobe", saturation, value, [FREE, mm!(NHsvAdobe, min_saturation, max_saturation), mm!(NHsvAdobe, min_value, max_value)]);
 node_hue_first!(NHslP3, "hsl_p3", saturation, lightness, [FREE, mm!(NHslP3, min_saturation, max_saturation), mm!(NHslP3, min_lightness, max_lightness)]);
 node_hue_first!(NHwbRec2020, "hwb_rec2020", whiteness, blackness, [FREE, mm!(NHwbRec2020, min_whiteness, max_whiteness), mm!(NHwbRec2020, min_blackness, max_blackness)]);
@@ -233,8 +239,8 @@ macro_rules! universe {
     };
 }
 
-universe!([NXyz, NLab, NSrgb, NLinSrgb, NAdobe, NLinAdobe, NP3, NLinP3, NRec2020, NLinRec2020, NRec709, NHsvAdobe, NHslP3, NHwbRec2020, NHsv, NHsl, NHwb, NXyz50, NLab50, NLch50, NLuv50, NProPhoto, NLinProPhoto, NHsvProPhoto, NXyzDci, NLabDci, NDciP3, NLinDciP3];
-          [NXyz, NLab, NSrgb, NLinSrgb, NAdobe, NLinAdobe, NP3, NLinP3, NRec2020, NLinRec2020, NRec709, NHsvAdobe, NHslP3, NHwbRec2020, NHsv, NHsl, NHwb, NXyz50, NLab50, NLch50, NLuv50, NProPhoto, NLinProPhoto, NHsvProPhoto, NXyzDci, NLabDci, NDciP3, NLinDciP3]);
+universe!([NXyz, NLab, NSrgb, NLinSrgb, NAdobe, NLinAdobe, NP3, NLinP3, NRec2020, NLinRec2020, NRec709, NHsvAdobe, NHslP3, NHwbRec2020, NHsv, NHsl, NHwb, NHsvLin, NHslLin, NHwbRec709, NXyz50, NLab50, NLch50, NLuv50, NProPhoto, NLinProPhoto, NHsvProPhoto, NXyzDci, NLabDci, NDciP3, NLinDciP3];
+          [NXyz, NLab, NSrgb, NLinSrgb, NAdobe, NLinAdobe, NP3, NLinP3, NRec2020, NLinRec2020, NRec709, NHsvAdobe, NHslP3, NHwbRec2020, NHsv, NHsl, NHwb, NHsvLin, NHslLin, NHwbRec709, NXyz50, NLab50, NLch50, NLuv50, NProPhoto, NLinProPhoto, NHsvProPhoto, NXyzDci, NLabDci, NDciP3, NLinDciP3]);
 
 fn lohi(n: &NodeInfo, alpha: bool) -> (Value, Value) {
     let mut lo: Vec<Value> = (n.bounds)().iter().map(|(lo, _)| match lo { Some(x) => x.ex(), None => json!([]) }).collect();
